@@ -228,6 +228,8 @@ func runC09(l *core.Ledger) {
 	l.Rule("C09-W2", "reconnect re-checks 'stream not broken' between taking the write lock and creating a stream, and releases the lock and returns on that edge")
 	l.Rule("C09-W3", "a reply channel that can be registered as streaming has no capacity bound covering its deliveries, so delivery must not be a plain blocking send under responseMut")
 	l.Rule("C09-W4", "a server-stream correctable registers defer deleteRouter(id) for every node of the configuration before entering its reply loop")
+	l.Rule("C09-W6", "the stream is marked broken only on transport errors: no error value that can be a context's Err() (directly or through a repository function's result) leads to streamBroken.set()")
+	l.Rule("C09-W7", "the per-node goroutines (sender, receiver) return only inside a parentCtx.Done() case: nothing a call or a peer does can end them")
 	l.Rule("C09-W5", "the 'held while acquiring' graph over all mutexes of the runtime is acyclic and has no self-edge")
 
 	fns := allFuncs(l.Prog, r.pkg)
@@ -325,6 +327,8 @@ func runC09(l *core.Ledger) {
 
 	c09W2(l, r)
 	c09W4(l, r)
+	c09W6(l, r)
+	c09W7(l, r, roots)
 
 	// W5 lock order
 	var names []string
@@ -651,4 +655,170 @@ func c09W4(l *core.Ledger, r *rt) {
 	}
 	l.Check(okLoop && okRecv && okID && okAll && okBefore, "C09-W4", key, def.Pos(), "defer deleteRouter(id) for every node before the loop on the stream edge",
 		fmt.Sprintf("deferred router deletion incomplete: in a loop: %v, on each element of the configuration: %v, with the call's id: %v, unfiltered: %v, before the reply loop whenever ServerStream: %v", okLoop, okRecv, okID, okAll, okBefore))
+}
+
+// canBeCtxErr: can the error value be some context's Err()? Followed through
+// phis and through the results of repository functions.
+func canBeCtxErr(v ssa.Value, depth int, seen map[ssa.Value]bool) bool {
+	if depth > 6 || seen[v] {
+		return false
+	}
+	seen[v] = true
+	// a load of a local slot (named result spilled around a defer): if the slot
+	// is stored earlier in the same block, that store is the reaching definition
+	if ld, ok := v.(*ssa.UnOp); ok && ld.Op == token.MUL {
+		if al, ok := ld.X.(*ssa.Alloc); ok {
+			var last ssa.Value
+			for _, in := range ld.Block().Instrs {
+				if in == ssa.Instruction(ld) {
+					break
+				}
+				if st, ok := in.(*ssa.Store); ok && st.Addr == ssa.Value(al) {
+					last = st.Val
+				}
+			}
+			if last != nil {
+				return canBeCtxErr(last, depth+1, seen)
+			}
+		}
+	}
+	for _, o := range sx.Origins(v) {
+		switch o.Kind {
+		case sx.KCall, sx.KExtract:
+			c, ok := o.V.(*ssa.Call)
+			if !ok {
+				continue
+			}
+			if c.Call.IsInvoke() {
+				if c.Call.Method.Name() == "Err" && isContextType(c.Call.Value.Type()) {
+					return true
+				}
+				continue
+			}
+			callee := c.Call.StaticCallee()
+			if callee == nil || !inRepo(callee) {
+				continue
+			}
+			idx := 0
+			if o.Kind == sx.KExtract {
+				idx = o.Index
+			}
+			bad := false
+			sx.AllInstrs(callee, func(_ sx.Node, in ssa.Instruction) {
+				if ret, isRet := in.(*ssa.Return); isRet && idx < len(ret.Results) && isErrorType(ret.Results[idx].Type()) {
+					if canBeCtxErr(ret.Results[idx], depth+1, seen) {
+						bad = true
+					}
+				}
+			})
+			// named results spilled around defers: look at stores into the result slot
+			if !bad && len(callee.Blocks) > 0 {
+				sx.AllInstrs(callee, func(_ sx.Node, in ssa.Instruction) {
+					st, isSt := in.(*ssa.Store)
+					if !isSt || !isErrorType(st.Val.Type()) {
+						return
+					}
+					if al, isAl := st.Addr.(*ssa.Alloc); isAl && al.Comment == "err" || isAl && strings.HasPrefix(al.Comment, "err") {
+						if canBeCtxErr(st.Val, depth+1, seen) {
+							bad = true
+						}
+					}
+				})
+			}
+			if bad {
+				return true
+			}
+		}
+	}
+	return false
+}
+
+func c09W6(l *core.Ledger, r *rt) {
+	n := 0
+	for _, f := range allFuncs(l.Prog, r.pkg) {
+		sx.AllInstrs(f, func(nd sx.Node, in ssa.Instruction) {
+			c, ok := in.(*ssa.Call)
+			if !ok || c.Call.StaticCallee() == nil || c.Call.StaticCallee().Name() != "set" || len(c.Call.Args) != 1 {
+				return
+			}
+			if _, is := fieldAddrOf(c.Call.Args[0], "streamBroken"); !is {
+				return
+			}
+			n++
+			key := fmt.Sprintf("%s/streamBroken.set#%d", fnKey(f), n)
+			// error tests whose non-nil edge dominates this set
+			bad := ""
+			sx.AllInstrs(f, func(_ sx.Node, in2 ssa.Instruction) {
+				ifi, isIf := in2.(*ssa.If)
+				if !isIf {
+					return
+				}
+				v, _ := condOf(ifi)
+				b, isB := v.(*ssa.BinOp)
+				if !isB || (b.Op != token.NEQ && b.Op != token.EQL) || !isErrorType(b.X.Type()) {
+					return
+				}
+				k, isC := b.Y.(*ssa.Const)
+				if !isC || !k.IsNil() {
+					return
+				}
+				m := func(o sx.Origin) bool { return true }
+				if isErrNonNil(ifi, m) == 0 {
+					return
+				}
+				if !sx.EdgeDominates(f, errEdge(ifi, m, true), nd) {
+					return
+				}
+				if canBeCtxErr(b.X, 0, map[ssa.Value]bool{}) {
+					bad = sx.OriginsString(sx.Origins(b.X))
+				}
+			})
+			l.Check(bad == "", "C09-W6", key, c.Pos(), "set only on transport errors", "the stream is marked broken on an error that can be a caller's context error ("+bad+"): a call whose context ended before its request was written makes the sender tear down a healthy stream; the next request then requests the stream write lock while the reader is parked in RecvMsg on that healthy, idle stream - the node is disabled")
+		})
+	}
+	l.Floor("C09-W6", n, 4, "sites that mark the stream broken")
+}
+
+func c09W7(l *core.Ledger, r *rt, roots []goRoot) {
+	n := 0
+	for _, rt := range roots {
+		if rt.site == nil || rt.fn.Parent() != nil {
+			continue
+		}
+		top := rt.fn
+		if top.Signature.Recv() == nil || !isNamed(top.Signature.Recv().Type(), core.RootModule, "channel") {
+			continue
+		}
+		// per-node roots are started from newChannel / newNodeStream, not from entry points
+		n++
+		key := fnKey(rt.fn) + "/returns"
+		bad := false
+		sx.AllInstrs(rt.fn, func(nd sx.Node, in ssa.Instruction) {
+			if _, isRet := in.(*ssa.Return); !isRet {
+				return
+			}
+			ok := false
+			sx.AllInstrs(rt.fn, func(_ sx.Node, in2 ssa.Instruction) {
+				s, isSel := in2.(*ssa.Select)
+				if !isSel {
+					return
+				}
+				for i, st := range s.States {
+					if cv, isDone := isDoneOf(st.Chan); isDone && isParentCtx(cv) {
+						if e, found := selectCaseEdge(s, i); found && sx.EdgeDominates(rt.fn, e, nd) {
+							ok = true
+						}
+					}
+				}
+			})
+			if !ok {
+				bad = true
+				l.Bad("C09-W7", key, in.Pos(), "a per-node goroutine can return on a path that is not a parentCtx.Done() case: once it is gone (e.g. after a stream error of a particular kind) nobody reads replies / sends requests for this node any more, and it is never restarted because the connection counts as established")
+			}
+		})
+		if !bad {
+			l.OK("C09-W7", key, rt.fn.Pos(), "returns only when the node is closed")
+		}
+	}
+	l.Floor("C09-W7", n, 2, "per-node goroutine roots (sender, receiver)")
 }
